@@ -283,6 +283,7 @@ def run(ctx):
         hd.differential(ctx, cases, "ar", release=True)
     known = hd.known_kinds_for("C04")
     fails = hd.apply_oracle(ctx, cases, impl, oracle, known)
+    hd.cli_pass(ctx, cases, impl, "ar", "a")
     ctx.coverage.update({
         "evaluations": len(cases),
         "distinct_nontrivial": hd.distinct_nontrivial(cases, impl),
